@@ -27,7 +27,7 @@ Import ListNotations.
 Require Import V.base.Fld.
 
 (* replace the i-th element (no-op when i is out of range) *)
-Fixpoint upd {A : Type} (i : nat) (x : A) (l : list A) : list A :=
+Fixpoint upd {A : Type} (i : nat) (x : A) (l : list A) {struct l} : list A :=
   match l with
   | [] => []
   | h :: t => match i with O => x :: t | S i' => h :: upd i' x t end
